@@ -67,13 +67,13 @@ type uploadRec struct {
 func NewFakeReg() *FakeReg {
 	f := &FakeReg{manifests: map[string][]byte{}, blobs: map[string][]byte{}, counts: map[string]int{}, Uploads: map[string]*uploadRec{}, Accepted: map[string]bool{}}
 	var err error
-	f.regLn, err = net.Listen("tcp4", "127.0.0.1:0")
+	f.regLn, err = listenLow()
 	if err != nil {
-		panic(err)
+		panic("sandbox: no port for the fake registry: " + err.Error())
 	}
-	f.cdnLn, err = net.Listen("tcp4", "127.0.0.1:0")
+	f.cdnLn, err = listenLow()
 	if err != nil {
-		panic(err)
+		panic("sandbox: no port for the fake CDN: " + err.Error())
 	}
 	f.RegHost = f.regLn.Addr().String()
 	f.CDNHost = fmt.Sprintf("localhost:%d", f.cdnLn.Addr().(*net.TCPAddr).Port)
